@@ -2,6 +2,7 @@ package props
 
 import (
 	"fmt"
+	"go/constant"
 	"go/token"
 	"go/types"
 	"sort"
@@ -255,6 +256,51 @@ func (c *Ctx) readDeadlineOwners() {
 	}
 	c.R.Count("calls that move the connection's read deadline", n)
 	c.R.Floor("calls that move the connection's read deadline", n, 2)
+	// the accept path (and the client's handshake) may move the deadline only before the service's goroutines run:
+	// afterwards the deadline belongs to the receiver, which re-arms it only when a read returns
+	for _, fn := range c.P.Funcs {
+		if fn.Pkg == nil || fn.Pkg.Pkg.Path() != pkgService || fn.Parent() != nil || r.Start == nil {
+			continue
+		}
+		if fn != r.Accept && recvNamed(fn) != "Client" {
+			continue
+		}
+		if len(c.hostedCalls(fn, mCallee(r.Start), 1)) == 0 {
+			continue
+		}
+		g := paths.New(c.P, fn, 1)
+		g.Expand = func(callee *ssa.Function, site ssa.CallInstruction) bool {
+			return callee != r.Start && callee.Pkg == fn.Pkg && callee.Blocks != nil && (recvNamed(callee) == recvNamed(fn) || callee.Signature.Recv() == nil)
+		}
+		moves := func(nd paths.Node) bool {
+			call := paths.CallAt(nd)
+			if call == nil {
+				return false
+			}
+			cc := call.Common()
+			name := ""
+			if cc.IsInvoke() {
+				name = cc.Method.Name()
+			} else if f := cc.StaticCallee(); f != nil && f.Pkg != nil && f.Pkg.Pkg.Path() == "net" {
+				name = f.Name()
+			}
+			return name == "SetDeadline" || name == "SetReadDeadline"
+		}
+		bad := false
+		var wit []string
+		for _, st := range nodesMatching(g, nodeM(mCallee(r.Start))) {
+			if pth := g.FindPath(g.Succ(st), nil, moves); pth != nil {
+				bad = true
+				wit = c.witness(g, pth)
+			}
+		}
+		key := fname(fn) + ":read-deadline-not-moved-after-start"
+		if bad {
+			c.R.Bad(ruleP5, key, c.P.Pos(fn.Pos()), fname(fn)+" moves (or clears) the connection's read deadline after the service's goroutines were started: it overwrites the keep-alive deadline the receiver has armed, which is re-armed only when a read returns - a client that stays silent from then on is never dropped", wit...)
+		} else {
+			c.R.Ok(ruleP5, key, c.P.Pos(fn.Pos()), "no call moving the read deadline is reachable after the service was started")
+		}
+	}
 }
 
 // closureRangesOverOwnRequest: the loop of a completion closure ranges over the filters of the message the closure
@@ -511,4 +557,197 @@ func (c *Ctx) storeKeyNeverEmpty() {
 	} else {
 		c.R.Ok(ruleP8, "getSession:empty-client-id-gets-an-identifier", pos, "an empty client identifier is replaced before the store is used")
 	}
+}
+
+// subscriberIdentityIsEquality: the tree recognises a subscriber by Go's == on the token handed in (a pointer to the
+// connection's callback, a string, a number): the comparison helper used by insert and remove answers true only where
+// an == of its two arguments (or of their values after the same type assertion) is true. A structural comparison
+// (reflect.DeepEqual, fmt, a hash) takes two connections with equal contents for one subscriber.
+func (c *Ctx) subscriberIdentityIsEquality() {
+	var eq *ssa.Function
+	for _, host := range []string{"sremove", "sinsert"} {
+		fn := c.P.Func("topics", "snode", host)
+		if fn == nil {
+			continue
+		}
+		for f := range c.reachFrom(fn) {
+			sig := f.Signature
+			if f.Pkg == nil || f.Pkg.Pkg.Path() != pkgTopics || sig.Recv() != nil || sig.Params().Len() != 2 || sig.Results().Len() != 1 {
+				continue
+			}
+			_, i0 := sig.Params().At(0).Type().Underlying().(*types.Interface)
+			_, i1 := sig.Params().At(1).Type().Underlying().(*types.Interface)
+			if bt, ok := sig.Results().At(0).Type().Underlying().(*types.Basic); i0 && i1 && ok && bt.Kind() == types.Bool {
+				eq = f
+			}
+		}
+	}
+	if eq == nil {
+		c.R.Ok(ruleT5, "subscriber-identity:decided-by-==", "", "insert and remove compare the tokens in place")
+		return
+	}
+	// the one value stored into a local cell (its address may also be compared, which changes nothing)
+	cellValue := func(a ssa.Value) ssa.Value {
+		al, ok := a.(*ssa.Alloc)
+		if !ok || al.Referrers() == nil {
+			return nil
+		}
+		var val ssa.Value
+		n := 0
+		for _, r := range *al.Referrers() {
+			switch x := r.(type) {
+			case *ssa.Store:
+				if x.Addr != ssa.Value(al) {
+					return nil
+				}
+				val = x.Val
+				n++
+			case *ssa.UnOp, *ssa.BinOp, *ssa.DebugRef:
+			default:
+				return nil
+			}
+		}
+		if n != 1 {
+			return nil
+		}
+		return val
+	}
+	fromParam := func(v ssa.Value) bool {
+		for d := 0; d < 6; d++ {
+			switch x := v.(type) {
+			case *ssa.Parameter:
+				return x.Parent() == eq
+			case *ssa.TypeAssert:
+				v = x.X
+			case *ssa.Extract:
+				v = x.Tuple
+			case *ssa.MakeInterface:
+				v = x.X
+			case *ssa.ChangeInterface:
+				v = x.X
+			case *ssa.UnOp:
+				if x.Op != token.MUL {
+					return false
+				}
+				if s := cellValue(x.X); s != nil {
+					v = s
+				} else {
+					return false
+				}
+			case *ssa.Alloc:
+				if s := cellValue(x); s != nil {
+					v = s
+				} else {
+					return false
+				}
+			default:
+				return false
+			}
+		}
+		return false
+	}
+	isEq := func(v ssa.Value) bool {
+		bo, ok := v.(*ssa.BinOp)
+		return ok && bo.Op == token.EQL && fromParam(bo.X) && fromParam(bo.Y)
+	}
+	var bad []string
+	var judge func(v ssa.Value, at *ssa.BasicBlock, d int) bool
+	judge = func(v ssa.Value, at *ssa.BasicBlock, d int) bool {
+		switch x := v.(type) {
+		case *ssa.Const:
+			if x.Value == nil || !constant.BoolVal(x.Value) {
+				return true // false is always safe
+			}
+			// true: only under the true edge of an == of the arguments
+			for b := at; b != nil && b.Idom() != nil; b = b.Idom() {
+				id := b.Idom()
+				if iff, ok := id.Instrs[len(id.Instrs)-1].(*ssa.If); ok && isEq(iff.Cond) && (id.Succs[0] == b || id.Succs[0].Dominates(b)) && len(id.Succs[0].Preds) == 1 {
+					return true
+				}
+			}
+			return false
+		case *ssa.BinOp:
+			return isEq(x)
+		case *ssa.Phi:
+			if d > 3 {
+				return false
+			}
+			for i, e := range x.Edges {
+				if !judge(e, x.Block().Preds[i], d+1) {
+					return false
+				}
+			}
+			return true
+		}
+		return false
+	}
+	for _, ret := range ir.Returns(eq) {
+		if !judge(ir.ReturnOperand(ret, 0), ret.Block(), 0) {
+			bad = append(bad, c.P.InstrPos(ret))
+		}
+	}
+	c.R.Check(len(bad) == 0, ruleT5, "subscriber-identity:decided-by-==", c.P.Pos(eq.Pos()), eq.Name()+" answers true only where == of its two arguments holds", eq.Name()+" can answer true at "+joinStr(bad, ", ")+" for two tokens that are not == (a structural comparison): two connections whose callbacks have equal contents are one subscriber to the tree - the second Subscribe replaces the first one's entry, Unsubscribe of one removes the other")
+}
+
+// connectDecodedIntoFreshMessage: the CONNECT decoder stores the optional fields (will topic / message, user name,
+// password) only when their flag is set. What authentication and the session see for an absent field is therefore
+// what the message held before: the message a connection's CONNECT is decoded into must be freshly constructed - or
+// the decoder must store every optional field on every successful path.
+func (c *Ctx) connectDecodedIntoFreshMessage() {
+	dec := c.P.Func("message", "ConnectMessage", "decodeMessage")
+	if dec == nil {
+		c.R.Unresolved("message.ConnectMessage.decodeMessage")
+		return
+	}
+	// does the decoder overwrite every optional field on every successful path?
+	g := paths.New(c.P, dec, 1)
+	g.Expand = func(callee *ssa.Function, site ssa.CallInstruction) bool {
+		return callee != dec && callee.Blocks != nil && recvNamed(callee) == "ConnectMessage" && callee.Pkg == dec.Pkg && callee.Object() != nil && !callee.Object().Exported()
+	}
+	okReturn := func(n paths.Node) bool {
+		ret, ok := n.Instr.(*ssa.Return)
+		if !ok || n.F != g.Root {
+			return false
+		}
+		k, ok := ir.ReturnOperand(ret, len(ret.Results)-1).(*ssa.Const)
+		return ok && k.IsNil()
+	}
+	resets := true
+	for _, field := range []string{"username", "password", "willTopic", "willMessage"} {
+		stores := func(n paths.Node) bool {
+			st, ok := n.Instr.(*ssa.Store)
+			if !ok {
+				return false
+			}
+			p := ir.PathOf(st.Addr)
+			return len(p.Fields) > 0 && p.Fields[len(p.Fields)-1] == field
+		}
+		if g.FindPath([]paths.Node{g.Entry()}, stores, okReturn) != nil {
+			resets = false
+		}
+	}
+	n := 0
+	for _, fn := range c.P.Funcs {
+		if fn.Pkg == nil || fn.Pkg.Pkg.Path() != pkgService {
+			continue
+		}
+		for _, call := range ir.Calls(fn) {
+			if !ir.IsMethod(call.Common(), pkgMessage, "ConnectMessage", "Decode") || len(call.Common().Args) == 0 {
+				continue
+			}
+			n++
+			fresh, why := freshValue(call.Common().Args[0], 0)
+			key := fname(fn) + ":CONNECT-decoded-into-a-fresh-message"
+			switch {
+			case fresh:
+				c.R.Ok(ruleP9, key, c.P.InstrPos(call), "decode target: "+why)
+			case resets:
+				c.R.Ok(ruleP9, key, c.P.InstrPos(call), "the decoder stores every optional field on every successful path")
+			default:
+				c.R.Bad(ruleP9, key, c.P.InstrPos(call), "the CONNECT is decoded into a message that is not freshly constructed here ("+why+") while the decoder leaves the optional fields of an absent flag untouched: a CONNECT without user name / password / will is authenticated and stored with the values an earlier connection left in that message")
+			}
+		}
+	}
+	c.R.Count("CONNECT decode sites of the handshake", n)
+	c.R.Floor("CONNECT decode sites of the handshake", n, 1)
 }
